@@ -1,8 +1,8 @@
-import AlgoVerif.Common
-/-! Line-protocol component for C12 — not built yet. -/
+import AlgoVerif.Driver.C10
+/-! Line-protocol component for C12: the same grammar cases and ops as C10 (`parse`, `ast`, `table`, …). -/
 namespace AlgoVerif.C12.Driver
 
-def runCase (_hdr : List String) (ops : List String) : List String :=
-  ops.map fun _ => "bad-case"
+def runCase (hdr : List String) (ops : List String) : List String :=
+  AlgoVerif.C10.Driver.runCase hdr ops
 
 end AlgoVerif.C12.Driver
